@@ -2,13 +2,20 @@
 // current tree and records, per request, the outcome on the shared Config and the outcome of
 // the same request on a Config freshly loaded from the same bytes.
 //
-//	c10 -seed N -out PREFIX -mode corpus|random|concurrent|stress|replay -n COUNT [-len L] [-g G] [-in FILE]
+//	c10 -seed N -out PREFIX -mode corpus|random|concurrent|stress|replay -n COUNT [-len L] [-g G] [-in FILE] [-timeout 2s]
+//
+// Watchdog: no request is waited for longer than -timeout.  A request that does not return is
+// recorded as outcome kind "panic" with message "hang: ..." (OPanic in the Gallina case: never
+// allowed by the specification), nothing more is issued on that Config by the goroutine that is
+// stuck, and the harness goes on (the stuck goroutines are leaked), writes every case and exits 0.
 //
 // Keys include prefixes/extensions of each other and keys ending in fragments of Go type
 // names (for every pair of result types whose %T names are in suffix relation, name(T1) =
 // P + name(T2), the document holds keys k and k+P); result types: sized integers, floats,
 // string, bool, pointers, slices, maps, structs, time.Duration, `any`, named types and two
-// distinct local types with the same name.  concurrent: G goroutines issue their requests
+// distinct local types with the same name, and result types yaml.v3 cannot decode into without
+// panicking through reflect (a struct with an interface-typed field, fmt.Stringer itself, a
+// struct repeating a yaml tag, a struct with an `error` field).  concurrent: G goroutines issue their requests
 // against one Config (run the binary built with -race for the race detector).
 package main
 
@@ -18,10 +25,12 @@ import (
 	"fmt"
 	"math/rand/v2"
 	"os"
+	"reflect"
 	"runtime"
 	"sort"
 	"strings"
 	"sync"
+	"sync/atomic"
 	"time"
 
 	"github.com/drshriveer/gtools/gconfig"
@@ -50,12 +59,15 @@ func render(v any) outcome {
 	return outcome{Kind: "val", Val: string(b)}
 }
 
-func guarded(f func() outcome) (o outcome) {
+// guarded runs one request and classifies a panic.  Only MustGet (must = true) may report an
+// error by panicking with it ("mustpanic"); a panic of Get or GetOrDefault, a runtime error and a
+// panic whose value is not an error are kind "panic".
+func guarded(must bool, f func() outcome) (o outcome) {
 	defer func() {
 		if r := recover(); r != nil {
-			if _, isRuntime := r.(runtime.Error); isRuntime {
-				o = outcome{Kind: "panic", Msg: fmt.Sprint(r)}
-			} else if _, isErr := r.(error); isErr {
+			_, isRuntime := r.(runtime.Error)
+			_, isErr := r.(error)
+			if must && isErr && !isRuntime {
 				o = outcome{Kind: "mustpanic"}
 			} else {
 				o = outcome{Kind: "panic", Msg: fmt.Sprint(r)}
@@ -65,11 +77,200 @@ func guarded(f func() outcome) (o outcome) {
 	return f()
 }
 
+// ---------------------------------------------------------------- watchdog
+
+var (
+	reqTimeout = 2 * time.Second // -timeout
+	hangEvents atomic.Int64      // requests / goroutine groups that did not return in time
+)
+
+const (
+	fullTimeoutHangs = 2                      // the first hangs of a run are waited for with the full timeout,
+	shortTimeout     = 250 * time.Millisecond // later ones (the tree is known to hang by then) with this one
+	maxHangEvents    = 20                     // the generating modes stop producing histories after that many
+	// the timeout is counted in ticks of a ticker, not in wall-clock time: when the machine is so
+	// loaded that this process is not scheduled, ticks are dropped as well and the wait gets longer
+	watchTicks = 20
+)
+
+func curTimeout() time.Duration {
+	if hangEvents.Load() >= fullTimeoutHangs && reqTimeout > shortTimeout {
+		return shortTimeout
+	}
+	return reqTimeout
+}
+
+func tooManyHangs() bool { return hangEvents.Load() >= maxHangEvents }
+
+func hangOutcome(d time.Duration) outcome {
+	return outcome{Kind: "panic", Msg: fmt.Sprintf("hang: the request did not return within %v", d)}
+}
+
+func isHang(o outcome) bool { return o.Kind == "panic" && strings.HasPrefix(o.Msg, "hang:") }
+
+// goid is the id of the calling goroutine, as the runtime prints it ("goroutine 123 [running]:").
+func goid() uint64 {
+	var buf [64]byte
+	b := buf[:runtime.Stack(buf[:], false)]
+	b = b[len("goroutine "):]
+	var id uint64
+	for _, c := range b {
+		if c < '0' || c > '9' {
+			break
+		}
+		id = id*10 + uint64(c-'0')
+	}
+	return id
+}
+
+// blocked tells whether each of the goroutines is parked on a lock, channel, condition, ... (so
+// it cannot return by itself) rather than running or waiting for a processor.  A machine so
+// loaded that a request merely has not been scheduled must not be taken for a hang: after the
+// timeout the harness looks at the runtime's own view of the goroutines.
+func blocked(ids []uint64) bool {
+	buf := make([]byte, 1<<20)
+	for {
+		n := runtime.Stack(buf, true)
+		if n < len(buf) {
+			buf = buf[:n]
+			break
+		}
+		buf = make([]byte, 2*len(buf))
+	}
+	dump := "\n" + string(buf)
+	for _, id := range ids {
+		i := strings.Index(dump, fmt.Sprintf("\ngoroutine %d [", id))
+		if i < 0 {
+			return false // gone: it has returned in the meantime
+		}
+		st := dump[i+1:]
+		st = st[strings.IndexByte(st, '[')+1:]
+		for _, live := range []string{"running", "runnable", "syscall", "preempted", "copystack", "GC "} {
+			if strings.HasPrefix(st, live) {
+				return false
+			}
+		}
+	}
+	return true
+}
+
+// a goroutine that is not blocked (slow, or spinning) is waited for this many timeouts at most
+const patience = 10
+
+// watch runs one request in a goroutine of its own and gives up waiting when, after the timeout,
+// that goroutine is blocked (or is still running after `patience` timeouts).
+func watch(f func() outcome) outcome {
+	done := make(chan outcome, 1)
+	var id atomic.Uint64
+	go func() {
+		id.Store(goid())
+		done <- f()
+	}()
+	d := curTimeout()
+	tick := time.NewTicker(d / watchTicks)
+	defer tick.Stop()
+	for round := 0; round < patience; round++ {
+		for n := 0; n < watchTicks; {
+			select {
+			case o := <-done:
+				return o
+			case <-tick.C:
+				n++
+			}
+		}
+		if g := id.Load(); g != 0 && blocked([]uint64{g}) {
+			break
+		}
+	}
+	select {
+	case o := <-done: // returned while the goroutines were being looked at
+		return o
+	default:
+	}
+	hangEvents.Add(1)
+	return hangOutcome(d)
+}
+
+// runWorkers releases one goroutine per request list at once on cfg; every goroutine issues its
+// requests directly (no per-request goroutine, so the contention is what it would be in a
+// program).  If no goroutine makes progress for the timeout and all that have not finished are
+// blocked (see `blocked`), they are stuck: the request each of them is in is recorded as a hang
+// and its remaining requests are dropped.  Returns, per goroutine, the requests issued and
+// their outcomes.
+func runWorkers(cfg *gconfig.Config, per [][]request) ([][]request, [][]outcome) {
+	n := len(per)
+	res := make([][]outcome, n)
+	prog := make([]atomic.Int64, n)
+	ids := make([]atomic.Uint64, n)
+	var wg sync.WaitGroup
+	start := make(chan struct{})
+	for i := range per {
+		res[i] = make([]outcome, len(per[i]))
+		wg.Add(1)
+		go func(i int) {
+			defer wg.Done()
+			ids[i].Store(goid())
+			<-start
+			for j, q := range per[i] {
+				res[i][j] = q.run(cfg)
+				prog[i].Store(int64(j + 1))
+			}
+		}(i)
+	}
+	done := make(chan struct{})
+	go func() { wg.Wait(); close(done) }()
+	limit := curTimeout()
+	close(start)
+	tick := time.NewTicker(limit / watchTicks)
+	defer tick.Stop()
+	last, idle, rounds := int64(-1), 0, 0
+	for {
+		select {
+		case <-done:
+			return per, res
+		case <-tick.C:
+			var sum int64
+			for i := range prog {
+				sum += prog[i].Load()
+			}
+			if sum != last {
+				last, idle, rounds = sum, 0, 0
+				continue
+			}
+			if idle++; idle < watchTicks {
+				continue
+			}
+			var unfinished []uint64
+			for i := range per {
+				if int(prog[i].Load()) < len(per[i]) {
+					unfinished = append(unfinished, ids[i].Load())
+				}
+			}
+			if rounds++; rounds < patience && !blocked(unfinished) {
+				idle = 0 // some goroutine is running or waiting for a processor: not a hang yet
+				continue
+			}
+			hangEvents.Add(1)
+			ops, obs := make([][]request, n), make([][]outcome, n)
+			for i := range per {
+				p := int(prog[i].Load()) // res[i][:p] was written before prog[i] was stored
+				ops[i] = append([]request(nil), per[i][:p]...)
+				obs[i] = append([]outcome(nil), res[i][:p]...)
+				if p < len(per[i]) {
+					ops[i], obs[i] = append(ops[i], per[i][p]), append(obs[i], hangOutcome(limit))
+				}
+			}
+			return ops, obs
+		}
+	}
+}
+
 // ---------------------------------------------------------------- result types
 
 type tyEntry struct {
 	id    int
 	name  string // fmt.Sprintf("%T", zero)
+	label string // reflect.TypeFor[T]().String(): tells interface types apart (their %T is "<nil>")
 	iface bool
 	dflt  outcome
 	get   func(cfg *gconfig.Config, key string) outcome
@@ -81,10 +282,11 @@ var types []tyEntry
 
 func reg[T any](dflt T) {
 	var zero T
-	e := tyEntry{id: len(types), name: fmt.Sprintf("%T", zero), iface: any(zero) == nil && fmt.Sprintf("%T", zero) == "<nil>"}
+	e := tyEntry{id: len(types), name: fmt.Sprintf("%T", zero), label: reflect.TypeFor[T]().String(),
+		iface: any(zero) == nil && fmt.Sprintf("%T", zero) == "<nil>"}
 	e.dflt = render(any(dflt))
 	e.get = func(cfg *gconfig.Config, key string) outcome {
-		return guarded(func() outcome {
+		return guarded(false, func() outcome {
 			v, err := gconfig.Get[T](cfg, key)
 			if err != nil {
 				return outcome{Kind: "err"}
@@ -93,10 +295,10 @@ func reg[T any](dflt T) {
 		})
 	}
 	e.must = func(cfg *gconfig.Config, key string) outcome {
-		return guarded(func() outcome { return render(any(gconfig.MustGet[T](cfg, key))) })
+		return guarded(true, func() outcome { return render(any(gconfig.MustGet[T](cfg, key))) })
 	}
 	e.ordef = func(cfg *gconfig.Config, key string) outcome {
-		return guarded(func() outcome { return render(any(gconfig.GetOrDefault[T](cfg, key, dflt))) })
+		return guarded(false, func() outcome { return render(any(gconfig.GetOrDefault[T](cfg, key, dflt))) })
 	}
 	types = append(types, e)
 }
@@ -109,6 +311,29 @@ type S struct {
 	B string        `yaml:"b" json:"b"`
 	D time.Duration `yaml:"d" json:"d"`
 }
+
+// Result types yaml.v3 cannot decode a present value into without panicking (reflect.Set of a
+// string into an interface-typed field; getStructInfo's "duplicated key" error is a panic).
+// Structs are inside C10's quantifier: the request must fail with an error, not panic.
+
+// W is a struct with an interface-typed field.
+type W struct {
+	S fmt.Stringer `yaml:"s" json:"s"`
+}
+
+// Dup is a struct whose two fields carry the same yaml tag.
+type Dup struct {
+	A int `yaml:"x" json:"a"`
+	B int `yaml:"x" json:"b"`
+}
+
+// E is a struct with an `error` field.
+type E struct {
+	E error `yaml:"s" json:"e"`
+}
+
+// hard lists the ids of these types (filled by registerTypes).
+var hard []int
 
 func ptr[T any](v T) *T { return &v }
 
@@ -171,6 +396,18 @@ func registerTypes() {
 	reg([]myInt{99})
 	regLocal1()
 	regLocal2()
+	// appended last: the ids of the types above are used by stored corpus files
+	first := len(types)
+	reg(W{S: time.Duration(101)})
+	reg[fmt.Stringer](time.Duration(102))
+	reg(Dup{A: 103})
+	reg(E{})
+	reg(&W{S: time.Duration(104)})
+	reg([]fmt.Stringer{time.Duration(105)})
+	reg(map[string]fmt.Stringer{"d": time.Duration(106)})
+	for id := first; id < len(types); id++ {
+		hard = append(hard, id)
+	}
 }
 
 // ---------------------------------------------------------------- document and keys
@@ -186,7 +423,8 @@ func buildDoc(r *rand.Rand) (text []byte, keys []string, pairs []suffixPair) {
 		"a": 1, "au": 2, "aui": 3, "n": nil, "s": "text", "si": "12", "f": 2.5, "b": true, "neg": -3, "big": 300,
 		"l": []any{1, 2, 3}, "ls": []any{"x", "y"}, "ln": []any{1, nil}, "le": []any{},
 		"m": map[string]any{"x": 1, "y": 2}, "ms": map[string]any{"p": "q"}, "me": map[string]any{},
-		"st": map[string]any{"a": 1, "b": "two", "d": "3s"}, "d": "1m30s", "di": 5,
+		"st": map[string]any{"a": 1, "b": "two", "d": "3s", "s": "hello", "x": 5}, "d": "1m30s", "di": 5,
+		"w": map[string]any{"s": "hello"}, "wn": map[string]any{"s": nil}, "dup": map[string]any{"x": 5},
 		"deep":   map[string]any{"a": map[string]any{"b": map[string]any{"c": 7, "cu": 8}}},
 		"k<nil>": 4, "k": 5, "x[]": 6, "x": 7, "p*": 8, "p": 9,
 	}
@@ -233,9 +471,30 @@ func buildDoc(r *rand.Rand) (text []byte, keys []string, pairs []suffixPair) {
 	for k := range doc {
 		keys = append(keys, k)
 	}
-	keys = append(keys, "m.x", "m.y", "ms.p", "st.a", "st.b", "deep.a.b.c", "deep.a.b.cu", "deep.a", "nope", "m.nope", "a.b", "")
+	keys = append(keys, "m.x", "m.y", "ms.p", "st.a", "st.b", "st.s", "w.s", "deep.a.b.c", "deep.a.b.cu", "deep.a", "nope", "m.nope", "a.b", "")
 	sort.Strings(keys)
 	return text, keys, pairs
+}
+
+// wideDoc: g keys, each holding a list of n small integers (distinct per key, so that a result
+// that belongs to another key is recognised)
+func wideDoc(g, n int) ([]byte, []string) {
+	doc := map[string]any{}
+	var keys []string
+	for i := 0; i < g; i++ {
+		l := make([]any, n)
+		for j := range l {
+			l[j] = (i*7 + j) % 100
+		}
+		k := fmt.Sprintf("wide%02d", i)
+		doc[k] = l
+		keys = append(keys, k)
+	}
+	text, err := yaml.Marshal(doc)
+	if err != nil {
+		panic(err)
+	}
+	return text, keys
 }
 
 func load(text []byte) *gconfig.Config {
@@ -281,6 +540,7 @@ type jcase struct {
 	Kind  string    `json:"kind"`
 	Yaml  string    `json:"yaml"`
 	Types []string  `json:"types"`
+	Label []string  `json:"labels"`
 	Ops   []request `json:"ops"`
 	Obs   []outcome `json:"obs"`
 	Fresh []outcome `json:"fresh"`
@@ -289,6 +549,9 @@ type jcase struct {
 	// stress mode: rounds run / rounds in which some outcome differed from the fresh one
 	StressRounds   int `json:"stress_rounds,omitempty"`
 	StressMismatch int `json:"stress_mismatch_rounds,omitempty"`
+	// of these: wide-window rounds (first conversions of G keys overlap by construction)
+	WideRounds   int `json:"wide_rounds,omitempty"`
+	WideMismatch int `json:"wide_mismatch_rounds,omitempty"`
 }
 
 func gOutcome(o outcome) string {
@@ -312,22 +575,23 @@ func gVal(o outcome) string {
 	return "(V " + gcx.GStr(o.Val) + ")"
 }
 
-var stressRounds, stressMismatch int
+var stressRounds, stressMismatch, wideRounds, wideMismatch int
 
 func emit(out *gal.Out, kind string, text []byte, ops []request, obs []outcome, g int) {
 	c := jcase{Kind: kind, Yaml: string(text), Ops: ops, Obs: obs, G: g,
-		StressRounds: stressRounds, StressMismatch: stressMismatch}
+		StressRounds: stressRounds, StressMismatch: stressMismatch, WideRounds: wideRounds, WideMismatch: wideMismatch}
 	for _, t := range types {
 		c.Types = append(c.Types, t.name)
+		c.Label = append(c.Label, t.label)
 	}
 	// the same requests on fresh Configs, and the conversion oracle: a fresh Get per (key, type)
 	seen := map[[2]any]bool{}
 	for _, q := range ops {
-		c.Fresh = append(c.Fresh, q.run(load(text)))
+		c.Fresh = append(c.Fresh, watch(func() outcome { return q.run(load(text)) }))
 		id := [2]any{q.Key, q.Ty}
 		if !seen[id] {
 			seen[id] = true
-			c.Conv = append(c.Conv, convRow{q.Key, q.Ty, types[q.Ty].get(load(text), q.Key)})
+			c.Conv = append(c.Conv, convRow{q.Key, q.Ty, watch(func() outcome { return types[q.Ty].get(load(text), q.Key) })})
 		}
 	}
 	var sb strings.Builder
@@ -368,9 +632,26 @@ func emit(out *gal.Out, kind string, text []byte, ops []request, obs []outcome, 
 
 var opNames = []string{"Get", "Get", "Get", "MustGet", "GetOrDefault"}
 
+// hardKeys: keys whose values reach the decoding paths that panic for the `hard` types (maps with
+// the fields s / x, scalars and lists for the interface types) and a few that do not (null, missing).
+var hardKeys = []string{"st", "st", "w", "dup", "s", "a", "ls", "m", "wn", "n", "st.s", "nope"}
+
 func randomRequest(r *rand.Rand, keys []string, pairs []suffixPair, recent []request) []request {
 	op := opNames[r.IntN(len(opNames))]
 	switch x := r.IntN(100); {
+	case x >= 95:
+		// a result type yaml cannot decode into, on a key that reaches the failing path; sometimes
+		// at once again (the same memo entry) or followed by a request for another key.  (The
+		// branches below draw from the other types only, with the frequencies they always had;
+		// the `hard` types come back through the repeats of earlier requests.)
+		q := request{op, hardKeys[r.IntN(len(hardKeys))], hard[r.IntN(len(hard))]}
+		switch r.IntN(4) {
+		case 0:
+			return []request{q, {opNames[r.IntN(len(opNames))], q.Key, q.Ty}}
+		case 1:
+			return []request{q, {opNames[r.IntN(len(opNames))], keys[r.IntN(len(keys))], r.IntN(len(types))}}
+		}
+		return []request{q}
 	case x < 35 && len(pairs) > 0:
 		// the two requests of a suffix pair, in either order
 		p := pairs[r.IntN(len(pairs))]
@@ -387,9 +668,9 @@ func randomRequest(r *rand.Rand, keys []string, pairs []suffixPair, recent []req
 	case x < 60 && len(recent) > 0:
 		// an earlier key with another type
 		q := recent[r.IntN(len(recent))]
-		return []request{{op, q.Key, r.IntN(len(types))}}
+		return []request{{op, q.Key, r.IntN(hard[0])}}
 	}
-	return []request{{op, keys[r.IntN(len(keys))], r.IntN(len(types))}}
+	return []request{{op, keys[r.IntN(len(keys))], r.IntN(hard[0])}}
 }
 
 func randomHistory(r *rand.Rand, keys []string, pairs []suffixPair, n int) []request {
@@ -406,7 +687,23 @@ func tyByName(name string) int {
 			return t.id
 		}
 	}
+	for _, t := range types {
+		if t.label == name {
+			return t.id
+		}
+	}
 	panic("c10: no type " + name)
+}
+
+// flatten concatenates the goroutines' requests and outcomes into one history
+func flatten(ops [][]request, obs [][]outcome) ([]request, []outcome) {
+	var fo []request
+	var fb []outcome
+	for i := range ops {
+		fo = append(fo, ops[i]...)
+		fb = append(fb, obs[i]...)
+	}
+	return fo, fb
 }
 
 func main() {
@@ -417,6 +714,7 @@ func main() {
 	n := flag.Int("n", 50, "number of histories")
 	hlen := flag.Int("len", 200, "maximal number of requests per history (per goroutine in concurrent mode)")
 	g := flag.Int("g", 16, "goroutines (concurrent mode)")
+	flag.DurationVar(&reqTimeout, "timeout", reqTimeout, "watchdog: a request that has not returned after this long is recorded as a hang")
 	flag.Parse()
 	if os.Getenv("GOMAXPROCS") == "" {
 		runtime.GOMAXPROCS(8)
@@ -425,14 +723,23 @@ func main() {
 	r := gal.NewRand(*seed)
 	out := gal.NewOut(*prefix)
 	defer out.Close()
+	defer func() {
+		if n := hangEvents.Load(); n > 0 {
+			fmt.Fprintf(os.Stderr, "c10: %d request(s)/goroutine group(s) did not return within the timeout (recorded as hang outcomes)\n", n)
+		}
+	}()
 	text, keys, pairs := buildDoc(r)
 	seq := func(kind string, ops []request) {
 		cfg := load(text)
-		obs := make([]outcome, len(ops))
-		for i, q := range ops {
-			obs[i] = q.run(cfg)
+		obs := make([]outcome, 0, len(ops))
+		for _, q := range ops {
+			o := watch(func() outcome { return q.run(cfg) })
+			obs = append(obs, o)
+			if isHang(o) {
+				break // the history ends with the request that did not return
+			}
 		}
-		emit(out, kind, text, ops, obs, 0)
+		emit(out, kind, text, ops[:len(obs)], obs, 0)
 	}
 	switch *mode {
 	case "corpus":
@@ -455,6 +762,35 @@ func main() {
 		// errors are not memoised; defaults are not memoised
 		seq("corpus", []request{{"GetOrDefault", "nope", u8}, {"Get", "nope", u8}, {"MustGet", "nope", u8},
 			{"Get", "big", u8}, {"GetOrDefault", "big", u8}, {"Get", "big", tyByName("int")}})
+		// result types yaml cannot decode into without panicking: the request must fail with an
+		// error.  On a tree where the panic escapes the memo's compute function, the same key
+		// again deadlocks and requests for unrelated keys hang (the bucket stays locked).
+		wT, intT := tyByName("main.W"), tyByName("int")
+		seq("corpus", []request{{"Get", "st", wT}})
+		seq("corpus", []request{{"Get", "st", wT}, {"Get", "st", wT}})
+		unrelated := func(first ...request) []request {
+			h := first
+			for i := 0; len(h) < len(first)+200; i++ {
+				if i < len(keys) {
+					h = append(h, request{"Get", keys[i], intT})
+				} else {
+					h = append(h, request{"Get", fmt.Sprintf("u%d", i), intT})
+				}
+			}
+			return h
+		}
+		seq("corpus", unrelated(request{"Get", "st", wT}))
+		seq("corpus", []request{{"MustGet", "st", wT}})
+		seq("corpus", []request{{"MustGet", "st", wT}, {"MustGet", "st", wT}})
+		seq("corpus", []request{{"GetOrDefault", "st", wT}})
+		seq("corpus", []request{{"GetOrDefault", "st", wT}, {"Get", "st", wT}, {"MustGet", "st", wT}})
+		seq("corpus", unrelated(request{"GetOrDefault", "w", wT}))
+		sT, dT, eT := tyByName("fmt.Stringer"), tyByName("main.Dup"), tyByName("main.E")
+		seq("corpus", []request{{"Get", "s", sT}, {"Get", "n", sT}, {"Get", "a", sT}})
+		seq("corpus", []request{{"Get", "dup", dT}, {"Get", "a", dT}, {"MustGet", "dup", dT}})
+		seq("corpus", []request{{"Get", "st", eT}, {"GetOrDefault", "st", eT}})
+		seq("corpus", []request{{"Get", "w", tyByName("*main.W")}, {"Get", "ls", tyByName("[]fmt.Stringer")},
+			{"Get", "ms", tyByName("map[string]fmt.Stringer")}, {"Get", "wn", wT}, {"Get", "a", intT}})
 	case "replay":
 		data, err := os.ReadFile(*in)
 		if err != nil {
@@ -494,40 +830,24 @@ func main() {
 			obs []outcome
 		}
 		var keep []round
-		for c := 0; c < *n; c++ {
+		for c := 0; c < *n && !tooManyHangs(); c++ {
 			base := randomHistory(r, keys, pairs, 12)
 			for _, q := range base {
 				if _, ok := freshOf[q]; !ok {
-					freshOf[q] = q.run(load(text))
+					freshOf[q] = watch(func() outcome { return q.run(load(text)) })
 				}
 			}
-			cfg := load(text)
-			res := make([][]outcome, *g)
-			var wg sync.WaitGroup
-			start := make(chan struct{})
-			for i := 0; i < *g; i++ {
-				res[i] = make([]outcome, len(base))
-				wg.Add(1)
-				go func(i int) {
-					defer wg.Done()
-					<-start
-					for j := range base {
-						res[i][j] = base[(j+i)%len(base)].run(cfg)
-					}
-				}(i)
-			}
-			close(start)
-			wg.Wait()
-			var ops []request
-			var obs []outcome
-			bad := false
-			for i := 0; i < *g; i++ {
+			per := make([][]request, *g)
+			for i := range per {
 				for j := range base {
-					q := base[(j+i)%len(base)]
-					ops, obs = append(ops, q), append(obs, res[i][j])
-					if res[i][j].Kind != freshOf[q].Kind || res[i][j].Val != freshOf[q].Val {
-						bad = true
-					}
+					per[i] = append(per[i], base[(j+i)%len(base)])
+				}
+			}
+			ops, obs := flatten(runWorkers(load(text), per))
+			bad := false
+			for i, q := range ops {
+				if obs[i].Kind != freshOf[q].Kind || obs[i].Val != freshOf[q].Val || obs[i].Kind == "panic" {
+					bad = true
 				}
 			}
 			stressRounds++
@@ -541,39 +861,62 @@ func main() {
 		for _, k := range keep {
 			emit(out, "stress", text, k.ops, k.obs, *g)
 		}
-	case "concurrent":
-		for c := 0; c < *n; c++ {
-			cfg := load(text)
+		// wide-window rounds (systematic part): every goroutine's FIRST request converts a value of
+		// its own key that takes long to convert (a list of several hundred items: the yaml round
+		// trip lasts far longer than the skew with which goroutines leave the barrier), so the first
+		// conversions of G different keys overlap by construction in every round.  Whatever a
+		// conversion shares with another one in flight — a buffer, an in-flight table keyed too
+		// coarsely, a package-level scratch variable — is hit in (almost) every round, not by luck.
+		wtext, wkeys := wideDoc(*g, 400)
+		wtypes := []int{tyByName("[]int"), tyByName("[]interface {}"), tyByName("[]string")}
+		wfresh := map[request]outcome{}
+		var wkeep []round
+		for c := 0; c < 24 && !tooManyHangs(); c++ {
 			per := make([][]request, *g)
-			res := make([][]outcome, *g)
+			for i := range per {
+				// own key first (a miss for every goroutine), then two other goroutines' keys as another type
+				per[i] = append(per[i], request{"Get", wkeys[i], wtypes[(c+i)%len(wtypes)]})
+				per[i] = append(per[i], request{"Get", wkeys[(i+1)%len(wkeys)], wtypes[(c+i+1)%len(wtypes)]})
+				per[i] = append(per[i], request{"MustGet", wkeys[(i+5)%len(wkeys)], wtypes[(c+i+2)%len(wtypes)]})
+			}
+			for _, l := range per {
+				for _, q := range l {
+					if _, ok := wfresh[q]; !ok {
+						wfresh[q] = watch(func() outcome { return q.run(load(wtext)) })
+					}
+				}
+			}
+			ops, obs := flatten(runWorkers(load(wtext), per))
+			bad := false
+			for i, q := range ops {
+				if obs[i].Kind != wfresh[q].Kind || obs[i].Val != wfresh[q].Val || obs[i].Kind == "panic" {
+					bad = true
+				}
+			}
+			stressRounds++
+			wideRounds++
+			if bad {
+				stressMismatch++
+				wideMismatch++
+			}
+			if (c < 1 || bad) && len(wkeep) < 3 {
+				wkeep = append(wkeep, round{ops, obs})
+			}
+		}
+		for _, k := range wkeep {
+			emit(out, "stress", wtext, k.ops, k.obs, *g)
+		}
+	case "concurrent":
+		for c := 0; c < *n && !tooManyHangs(); c++ {
+			per := make([][]request, *g)
 			for i := range per {
 				per[i] = randomHistory(r, keys, pairs, 1+r.IntN(*hlen))
-				res[i] = make([]outcome, len(per[i]))
 			}
-			var wg sync.WaitGroup
-			start := make(chan struct{})
-			for i := range per {
-				wg.Add(1)
-				go func(i int) {
-					defer wg.Done()
-					<-start
-					for j, q := range per[i] {
-						res[i][j] = q.run(cfg)
-					}
-				}(i)
-			}
-			close(start)
-			wg.Wait()
-			var ops []request
-			var obs []outcome
-			for i := range per {
-				ops = append(ops, per[i]...)
-				obs = append(obs, res[i]...)
-			}
+			ops, obs := flatten(runWorkers(load(text), per))
 			emit(out, "concurrent", text, ops, obs, *g)
 		}
 	default:
-		for c := 0; c < *n; c++ {
+		for c := 0; c < *n && !tooManyHangs(); c++ {
 			seq("random", randomHistory(r, keys, pairs, 1+r.IntN(*hlen)))
 		}
 	}
